@@ -152,7 +152,55 @@ def _arrays(tris):
     return np.array(pts, dtype=float).T, np.array(idx, dtype=int).T
 
 
-def tri_case(t1, t2):
+def _rots():
+    """Rational rotations (integer matrix M, denominator n; R = M / n) used to embed the planar triangulations:
+    the identity, signed permutations (those that move the z-axis put the grids in a vertical coordinate plane),
+    and tilted rotations from integer quaternions.  Taken from harness/props/_grids.py."""
+    from . import _grids
+
+    perms = _grids.rotations24()
+    ident = [m for m in perms if np.array_equal(m, np.eye(3, dtype=int))]
+    moving = [m for m in perms if m[2, 2] == 0]
+    flipz = [m for m in perms if m[2, 2] == -1]
+    out = [(ident[0], 1)] + [(m, 1) for m in moving[::3]] + [(flipz[0], 1)]
+    for q in ((1, 2, 2, 0), (2, 1, 0, 2), (3, 4, 0, 0), (2, 2, 1, 4), (2, 3, 6, 0)):
+        out.append(_grids.quat_rotation(q))
+    return out
+
+
+ROTS = None
+SHIFTS = [[0, 0, 0], [1, -2, 3], [-3, 1, 0]]
+
+
+def _motion(rng, t1, t2, k=None):
+    """rotation index, integer shift and a node numbering for each grid (the sign of the normal that porepy
+    computes for a grid depends on where its nodes are and how they are numbered)."""
+    global ROTS
+    ROTS = ROTS or _rots()
+    n1 = len({tuple(q) for t in t1 for q in t})
+    n2 = len({tuple(q) for t in t2 for q in t})
+    p1, p2 = list(range(n1)), list(range(n2))
+    rng.shuffle(p1)
+    rng.shuffle(p2)
+    return dict(rot=(rng.randrange(len(ROTS)) if k is None else k % len(ROTS)), shift=rng.choice(SHIFTS), perm1=p1, perm2=p2)
+
+
+def _embedded_grid(p, ind, motion, perm):
+    """TriangleGrid with the nodes renumbered by perm (node k becomes perm[k]) and moved by the rigid motion"""
+    import porepy as pp
+
+    global ROTS
+    ROTS = ROTS or _rots()
+    q = np.zeros_like(p)
+    q[:, perm] = p
+    g = pp.TriangleGrid(q, np.asarray(perm)[ind])
+    M, n = ROTS[motion["rot"]]
+    g.nodes = (np.asarray(M, dtype=float) @ g.nodes) / float(n) + np.array(motion["shift"], dtype=float).reshape(3, 1)
+    g.compute_geometry()
+    return g
+
+
+def tri_case(t1, t2, motion=None):
     import porepy as pp
 
     inp = dict(kind="tri", t1=[[list(map(int, q)) for q in t] for t in t1], t2=[[list(map(int, q)) for q in t] for t in t2])
@@ -161,18 +209,22 @@ def tri_case(t1, t2):
         p1, i1 = _arrays(inp["t1"])
         p2, i2 = _arrays(inp["t2"])
         ov = _tuples(pp.intersections.triangulations(p1, p2, i1, i2))
-        g1, g2 = pp.TriangleGrid(p1, i1.copy()), pp.TriangleGrid(p2, i2.copy())
-        g1.compute_geometry()
-        g2.compute_geometry()
-        for g, ind in ((g1, i1), (g2, i2)):  # the cells of the grid must be the triangles in the given order
+        m = motion or dict(rot=0, shift=[0, 0, 0], perm1=list(range(p1.shape[1])), perm2=list(range(p2.shape[1])))
+        g1, g2 = _embedded_grid(p1, i1, m, m["perm1"]), _embedded_grid(p2, i2, m, m["perm2"])
+        for g, ind, perm in ((g1, i1, m["perm1"]), (g2, i2, m["perm2"])):  # cells = the triangles in the given order
             cn = g.cell_nodes().tocsc().indices.reshape((3, -1), order="F")
-            if not np.array_equal(np.sort(cn, axis=0), np.sort(ind, axis=0)):
+            if not np.array_equal(np.sort(cn, axis=0), np.sort(np.asarray(perm)[ind], axis=0)):
                 raise RuntimeError("TriangleGrid reordered the cells")
+        n1 = pp.map_geometry.compute_normal(g1.nodes - g1.nodes.mean(axis=1).reshape(3, 1))
+        n2 = pp.map_geometry.compute_normal(g2.nodes - g1.nodes.mean(axis=1).reshape(3, 1))
+        info["opposite_normals"] = bool(np.dot(n1, n2) < 0)
         avg = pp.match_grids.match_2d(g1, g2, 1e-6, scaling="averaged")
         integ = pp.match_grids.match_2d(g1, g2, 1e-6, scaling="integrated")
         return ov, _rat_matrix(avg), _rat_matrix(integ)
 
-    return {"in": inp, "out": _guard(run)}
+    info = {}
+    out = _guard(run)
+    return {"in": inp, "out": out, "motion": motion, "info": info}
 
 
 def _delaunay(rng, a, b):
@@ -248,14 +300,17 @@ def run(ctx):
     ctx.rule = ("1D: every pair of partitions of [0,N] with integer breakpoints (N in {4,5} quick, {4,5,6} thorough), each "
                 "embedded along 2 (quick) / all 10 (thorough) integer directions of integer length with shuffled, randomly "
                 "oriented cells; 2D: every ordered pair of the catalogue triangulations (unit squares cut by either diagonal, "
-                "coarse diagonal cut, fans) of the 2x2 rectangle (thorough: also 3x2) plus seeded pairs of Delaunay "
-                "triangulations of random lattice node sets of rectangles up to 4x3; evaluations = cases (each = "
+                "coarse diagonal cut, fans) of the rectangles 2x2, 2x1, 3x1 (thorough: also 3x2) plus seeded pairs of Delaunay "
+                "triangulations of random lattice node sets of rectangles 2x1 .. 4x3; for match_2d every 2D pair is embedded "
+                "in space by a rational rigid motion (identity, signed permutations incl. vertical planes, tilted rotations "
+                "from integer quaternions, integer shift) with shuffled node numbering (the two computed normals come out "
+                "with opposite signs in a share of the cases, counted in the evidence); evaluations = cases (each = "
                 "line_tessellation/triangulations + 2 match calls); classes = (kind, numbers of cells)")
     ctx.assumptions = ["both tessellations cover the same lattice segment / rectangle (checked by TLC: InFamily)",
                        "1D embeddings have integer direction vectors of integer length, so all measures are rational",
                        "surface_tessellations (polygon sets) is not covered"]
     ns = (4, 5) if ctx.quick else (4, 5, 6)
-    rects = [(2, 2)] if ctx.quick else [(2, 2), (3, 2)]
+    rects = [(2, 2), (2, 1), (3, 1)] if ctx.quick else [(2, 2), (2, 1), (3, 1), (3, 2)]
     res = _enumerate(ctx, ns, rects)
     cases = []
     lines = sorted((r for r in res.records if r["kind"] == "line"), key=lambda r: (r["n"], r["X"], r["Y"]))
@@ -268,15 +323,25 @@ def run(ctx):
             cases.append(line_case(r["X"], r["Y"], _emb(ctx.rng, r["X"], r["Y"], k)))
             ctx.case(key=("line", len(r["X"]) - 1, len(r["Y"]) - 1), nontrivial=len(r["X"]) + len(r["Y"]) > 4)
     ctx.extra["line_pairs"] = len(lines)
-    for r in tris:
-        cases.append(tri_case(r["t1"], r["t2"]))
-        ctx.case(key=("tri", len(r["t1"]), len(r["t2"])))
+    global ROTS
+    ROTS = ROTS or _rots()
+    for n, r in enumerate(tris):
+        # every catalogue pair under one motion (cycling through all of them); pairs on a rectangle that is not
+        # mirror symmetric (a # b) under four (thorough: all) motions; thorough: three motions for the square ones
+        if r["a"] != r["b"]:
+            ks = [n, n + 3, n + 6, n + 9] if ctx.quick else list(range(len(ROTS)))
+        else:
+            ks = [n] if ctx.quick else [n, n + 4, n + 8]
+        for k in ks:
+            cases.append(tri_case(r["t1"], r["t2"], _motion(ctx.rng, r["t1"], r["t2"], k)))
+            ctx.case(key=("tri", len(r["t1"]), len(r["t2"]), cases[-1]["motion"]["rot"]))
     ctx.extra["tri_pairs_catalogue"] = len(tris)
     # seeded Delaunay family: precondition InFamily decided by TLC, cases outside are dropped (not judged)
     seeded = []
     for _ in range(150 if ctx.quick else 3000):
-        a, b = ctx.rng.choice([(2, 2), (3, 2), (3, 3), (4, 3)])
-        seeded.append(tri_case(_delaunay(ctx.rng, a, b), _delaunay(ctx.rng, a, b)))
+        a, b = ctx.rng.choice([(2, 1), (3, 1), (2, 2), (3, 2), (3, 3), (4, 3)])
+        t1, t2 = _delaunay(ctx.rng, a, b), _delaunay(ctx.rng, a, b)
+        seeded.append(tri_case(t1, t2, _motion(ctx.rng, t1, t2)))
     unfit, outside = set(), set()
     allc = cases + seeded
     for k in range(0, len(allc), 12000):  # one TLC run in quick
@@ -289,6 +354,12 @@ def run(ctx):
     ctx.extra["tri_pairs_seeded"] = len(seeded) - len(outside)
     ctx.extra["seeded_outside_family"] = len(outside)
     ctx.extra["unfit"] = len(unfit)
+    tri_all = [c for c in allc if c["in"]["kind"] == "tri"]
+    ctx.extra["tri_cases"] = len(tri_all)
+    ctx.extra["tri_cases_opposite_normals"] = sum(bool(c["info"].get("opposite_normals")) for c in tri_all)
+    ctx.extra["tri_cases_nonhorizontal_plane"] = sum(int(ROTS[c["motion"]["rot"]][0][2][2]) != ROTS[c["motion"]["rot"]][1]
+                                                     and int(ROTS[c["motion"]["rot"]][0][2][2]) != -ROTS[c["motion"]["rot"]][1]
+                                                     for c in tri_all)
     for c in (cases[len(cases) // 3], cases[-1], seeded[0]):
         ctx.sample({"in": c["in"], "out": {k: c["out"][k] for k in ("ov", "avg")}})
     ctx.exhaustive = True  # the enumerated pairs; the Delaunay pairs are extra
@@ -299,7 +370,7 @@ def run(ctx):
 def replay(ctx, body):
     rec = body["record"]
     i = rec["in"]
-    case = line_case(i["X"], i["Y"], rec["emb"]) if i["kind"] == "line" else tri_case(i["t1"], i["t2"])
+    case = line_case(i["X"], i["Y"], rec["emb"]) if i["kind"] == "line" else tri_case(i["t1"], i["t2"], rec.get("motion"))
     if case["in"] != i:
         raise RuntimeError("replay could not rebuild the recorded input")
     ctx.case(key="replay")
